@@ -4,8 +4,11 @@ package c16
 
 import (
 	"fmt"
+	"runtime"
 
 	"github.com/dave/dst/verifyield"
+
+	"verifsim/sched"
 )
 
 // The race binary is built against a copy of /repo into which cmd/yieldinst inserted decision
@@ -22,6 +25,17 @@ func init() {
 			return
 		}
 		before := s.SwitchCount()
+		// dst starts no goroutines of its own. Should a change make it start some, they run this
+		// hook too and cannot be told from the turn holder cheaply; when the run is aborted they
+		// must not take the process down with an Aborted panic nobody recovers: they just end.
+		defer func() {
+			if v := recover(); v != nil {
+				if _, ok := v.(sched.Aborted); ok && !isWorkerGoroutine() {
+					runtime.Goexit()
+				}
+				panic(v)
+			}
+		}()
 		step := s.Yield(me)
 		if s.SwitchCount() != before {
 			name := "?"
